@@ -1,6 +1,7 @@
 import Driver.Codec
 import Driver.Tracer
 import Driver.Journal
+import Driver.Precompile
 /-
   Model driver: one input line ↦ one output line (see DESIGN.md §2.6).
 -/
@@ -25,6 +26,10 @@ def dispatch (st : DState) (toks : List String) : DState × String :=
   | "J" :: rest =>
     let (j, tr, out) := Driver.journalOp st.j st.tr rest
     ({ st with j := j, tr := tr }, out)
+  | "P" :: rest => (st, Driver.precompileLine true rest)
+  | "PB" :: rest => (st, Driver.precompileLine false rest)
+  | "S" :: "abibytes" :: rest => (st, Driver.specAbiBytes rest)
+  | "S" :: "abipair" :: rest => (st, Driver.specAbiPair rest)
   | ["W"] => (st, s!"reads={st.j.work.reads}")
   | ["S", "jeffect", op] => (st, Driver.specJEffect op)
   | "S" :: "solpacked" :: rest => (st, Driver.specSolPacked rest)
